@@ -168,7 +168,7 @@ class CtlSim:
                 tuple(groups), len(self.invocations), self.cancel_obs)
 
     def known_groups(self):
-        return list(self.run.get("groups", ("g1", "g2", "apply-work-group-0", "map-work-group-0", "start-group-0",
+        return list(self.run.get("groups", ("g1", "g2", "g\t3", "g\u00a04", "", "apply-work-group-0", "map-work-group-0", "start-group-0",
                                             "start-group-1", "starmap-work-group-0", "doublestarmap-work-group-0",
                                             "apply-job-group-0")))
 
